@@ -47,6 +47,12 @@ class AbsBuf:
     def length(self):
         return self.L
 
+    def abstract_isinstance(self, c):
+        return getattr(c, "name", None) in ("bytearray", "bytes", "object")
+
+    def truth(self, fr, node):
+        return not B.decide_eq0(self.L, "buffer is empty")
+
     def _is_generic(self, k):
         r = B.prove_eq0(Aff.of(k) - self.idx)
         return r is True
